@@ -88,6 +88,17 @@ def rules(case, res):
                 bad.append({m: ["a"]} if m != "containsAllOf" else {m: "a"})
             bad += [{"containsAllOf": ["a", 1]}, {"containsAllOf": [["a"]]}, {"unknown": "a"}, {"Equals": "a"}, {"equals ": "a"},
                     {"equals": "a", "nope": "b"}, [], "a", 5, {}, {"caseInsensitive": True}]
+            # names that are NOT matcher names but look like one (or like the option): longer, shorter, other case, padded
+            for kw in list(MATCHERS) + ["caseInsensitive"]:
+                for name in (kw + "X", kw + " ", " " + kw, kw[:-1], kw.upper(), kw.lower(), "x" + kw, kw + kw):
+                    if name in MATCHERS or name == "caseInsensitive":
+                        continue
+                    for v in ("a", True, ["a"]):
+                        bad.append({name: v})
+                        bad.append({"startsWith": "", name: v})
+                        bad.append({name: v, "contains": "a"})
+            rng.shuffle(bad)
+            bad = bad[:prm.get("nbad", 160)]
             for r in bad:
                 S.fidc = getattr(S, "fidc", 0) + 1
                 which = rng.choice(["get", "fetch"])
@@ -96,6 +107,8 @@ def rules(case, res):
                 else:
                     S.request(q, "fetch", {"id": "b%d" % S.fidc, "path": r})
                 S.sig("bad-rule", json.dumps(r)[:24], which)
+                if S.fidc % 16 == 0:
+                    S.settle()
             S.settle()
             # more matchers than the configured maximum
             for n in (S.max_matchers, S.max_matchers + 1, S.max_matchers + 3):
